@@ -37,6 +37,13 @@ BAD_PAIRS = [((2,), (3,)), ((2, 2), (3,))]
 
 def h_construct(sx, sy, m):
     from regions import PixCoord
+    if sx == () and sy == ():
+        # each component keeps its own values whatever the other component's dtype is (integers are not pushed through floats)
+        big = 2 ** 53 + 1
+        pi_ = PixCoord(big, 0.5)
+        m.require('an integer component next to a float component keeps its exact value', int(pi_.x) == big and pi_.y == 0.5)
+        pa = PixCoord(np.array([big, 3]), np.array([0.5, 1.5]))
+        m.require('an integer array next to a float array keeps its exact values', [int(v) for v in pa.x] == [big, 3] and list(pa.y) == [0.5, 1.5])
     x, y = _arr(m, 'x', sx), _arr(m, 'y', sy)
     p = PixCoord(x, y)
     bx, by = np.broadcast_arrays(np.asarray(x, dtype=object), np.asarray(y, dtype=object))
